@@ -39,6 +39,11 @@ type Link struct {
 	Addr       tcpip.LinkAddress
 	MaxHdr     uint16
 	OnFrame    func(Frame) // optional, called inside WritePacket
+	// Retain makes the link behave like the repository's channel endpoint, which queues
+	// hdr.View() and payload.ToView() without copying the header: TakeLate then reads the
+	// retained buffers when it is called, not when the packet was written.
+	Retain bool
+	refs   [][2][]byte
 }
 
 func NewLink(mtu uint32, caps stack.LinkEndpointCapabilities, addr tcpip.LinkAddress) (tcpip.LinkEndpointID, *Link) {
@@ -62,6 +67,9 @@ func (l *Link) WritePacket(r *stack.Route, hdr buffer.Prependable, payload buffe
 	}
 	l.mu.Lock()
 	l.out = append(l.out, f)
+	if l.Retain {
+		l.refs = append(l.refs, [2][]byte{hdr.View(), payload.ToView()})
+	}
 	cb := l.OnFrame
 	l.mu.Unlock()
 	if cb != nil {
@@ -75,7 +83,25 @@ func (l *Link) Take() []Frame {
 	l.mu.Lock()
 	o := l.out
 	l.out = nil
+	l.refs = nil
 	l.mu.Unlock()
+	return o
+}
+
+// TakeLate is Take for a Retain link: the bytes of every frame are read now from the buffers the
+// stack handed to WritePacket (what a consumer of a queueing link endpoint sees).
+func (l *Link) TakeLate() []Frame {
+	l.mu.Lock()
+	o, refs := l.out, l.refs
+	l.out, l.refs = nil, nil
+	l.mu.Unlock()
+	if len(refs) != len(o) {
+		return o
+	}
+	for i := range o {
+		b := append([]byte(nil), refs[i][0]...)
+		o[i].Bytes = append(b, refs[i][1]...)
+	}
 	return o
 }
 
